@@ -175,9 +175,6 @@ func drain(it chunkenc.Iterator) ([]smp, error) {
 		case chunkenc.ValFloatHistogram:
 			t, h := it.AtFloatHistogram(nil)
 			out = append(out, smp{t, 2, digestFH(h)})
-			if os.Getenv("VERIF_C42_STORE") != "" {
-				fmt.Fprintf(os.Stderr, "FH %d %d hint=%d %+v\n", t, digestFH(h), h.CounterResetHint, *h)
-			}
 		default:
 			return out, fmt.Errorf("value type %v", vt)
 		}
@@ -733,7 +730,10 @@ func openStore(dir string, r *gen.Rand) (*store, error) {
 			} else {
 				all = append(all, p)
 			}
-			t += r.Range(1, 60)
+			// steps of at least 4 keep an out-of-order timestamp (t-1..t-3) off every in-order one:
+			// for a duplicate timestamp with different values the TSDB's sample querier and chunk
+			// querier do not pick the same sample, which is not remote read's business
+			t += r.Range(4, 60)
 		}
 	}
 	sort.SliceStable(all, func(i, j int) bool { return all[i].t < all[j].t })
@@ -832,7 +832,7 @@ func main() {
 	seen0 := map[string]bool{}
 
 	runCorpus(f, meta, cf, rg, &id0, seen0)
-	nStores := f.Count(20, 400)
+	nStores := f.Count(16, 400)
 	perStore := 8
 	id := id0
 	seen := seen0
